@@ -370,10 +370,9 @@ impl Expr {
                         fallback
                     }
                 } else {
-                    assert_eq!(
-                        primary.disregard_distractors(false),
-                        fallback.disregard_distractors(false)
-                    );
+                    // `lhs` can never be nil and yields the result; the parser has checked the
+                    // fallback against it, and two compatible types need not be identical
+                    // (string literals of different lengths)
                     primary
                 })
             }
